@@ -72,6 +72,9 @@ func runC12(c *fw.Ctx) {
 		bt.Op{Kind: "ModifyFamilies", Table: tblT, Mods: []bt.Mod{{ID: "g", Op: "drop"}, {ID: "g", Op: "create", GC: &bt.GC{Kind: "maxver", N: 1}}}},
 		bt.Op{Kind: "DropRowRange", Table: tblT, Prefix: []byte("a")},
 	)
+	// a server clock between two milliseconds: server-assigned timestamps (-1) in the selected branch must be
+	// accepted exactly as MutateRow accepts them
+	alpha = append(alpha, bt.Op{Kind: "SetClock", Clock: 1234567})
 	lists := [][]bt.Mut{
 		nil,
 		{mset("f", "n", 5000, "new")},
